@@ -428,7 +428,23 @@ func init() {
 	opaqueStr := func(ex *Exec, st *State, fr *Frame, c *ssa.Call, a []Value) Value {
 		return strConst("<formatted>")
 	}
-	intrinsics["fmt.Sprintf"] = opaqueStr
+	intrinsics["fmt.Sprintf"] = func(ex *Exec, st *State, fr *Frame, c *ssa.Call, a []Value) Value {
+		// formatting is not the subject, except for the one form whose result is data: a format string
+		// without arguments is returned unchanged unless it contains a '%' (then the result is opaque)
+		f := a[0].(*StrVal)
+		if va, ok := a[1].(*SliceVal); ok {
+			if n, okn := concreteInt(va.len); okn && n == 0 {
+				var pct []*Term
+				for _, ch := range f.cells {
+					pct = append(pct, mkEq(ch, mkBV(8, '%')))
+				}
+				if !ex.branch(st, mkOr(pct...)) {
+					return f
+				}
+			}
+		}
+		return strConst("<formatted>")
+	}
 	intrinsics["fmt.Sprint"] = opaqueStr
 	intrinsics["fmt.Sprintln"] = opaqueStr
 	intrinsics["encoding/hex.EncodeToString"] = opaqueStr
@@ -465,6 +481,37 @@ func init() {
 			panic(engineErr("plain %s hash object used directly (only through hmac.New is modelled)", k))
 		}
 	}
+	sumFn := func(kind string, n int) intrinsicFn {
+		return func(ex *Exec, st *State, fr *Frame, c *ssa.Call, a []Value) Value {
+			data := ex.readBytes(st, a[0].(*SliceVal), "hash input length")
+			var out []*Term
+			if db, ok := allConst(data); ok {
+				switch kind {
+				case "sha256":
+					h := sha256.Sum256(db)
+					out = constBytes(h[:])
+				case "sha1":
+					h := sha1.Sum(db)
+					out = constBytes(h[:])
+				default:
+					h := md5.Sum(db)
+					out = constBytes(h[:])
+				}
+			} else if len(data) == 0 {
+				panic(engineErr("plain hash of empty symbolic input"))
+			} else {
+				out = splitBytes(mkUF(fmt.Sprintf("HASH_%s_m%d", kind, len(data)), BV(8*n), joinBytes(data)), n)
+			}
+			av := &ArrayVal{elems: make([]Value, n)}
+			for i := range out {
+				av.elems[i] = out[i]
+			}
+			return av
+		}
+	}
+	intrinsics["crypto/sha256.Sum256"] = sumFn("sha256", 32)
+	intrinsics["crypto/sha1.Sum"] = sumFn("sha1", 20)
+	intrinsics["crypto/md5.Sum"] = sumFn("md5", 16)
 	intrinsics["crypto/hmac.New"] = func(ex *Exec, st *State, fr *Frame, c *ssa.Call, a []Value) Value {
 		fv := a[0].(*FuncVal)
 		kind := ""
@@ -642,6 +689,37 @@ func init() {
 		}
 		be.cells = append(be.cells, out...)
 		return &TupleVal{vals: []Value{c64(len(out)), &IfaceVal{}}}
+	}
+	intrinsics["(*bytes.Buffer).Reset"] = func(ex *Exec, st *State, fr *Frame, c *ssa.Call, a []Value) Value {
+		o := st.wobj(a[0].(*Ptr).obj)
+		ex.checkWrite(st, o)
+		o.ext = &bufExt{}
+		return nil
+	}
+	intrinsics[vrt+"PoolTake"] = func(ex *Exec, st *State, fr *Frame, c *ssa.Call, a []Value) Value {
+		p := a[0].(*Ptr)
+		o := st.obj(p.obj)
+		pe, _ := o.ext.(*poolExt)
+		if pe == nil || len(pe.items) == 0 {
+			return &IfaceVal{}
+		}
+		w := st.wobj(p.obj)
+		ex.checkWrite(st, w)
+		it := pe.items[len(pe.items)-1]
+		w.ext = &poolExt{items: append([]Value(nil), pe.items[:len(pe.items)-1]...)}
+		return it
+	}
+	intrinsics["(*sync.Pool).Put"] = func(ex *Exec, st *State, fr *Frame, c *ssa.Call, a []Value) Value {
+		p := a[0].(*Ptr)
+		w := st.wobj(p.obj)
+		ex.checkWrite(st, w)
+		pe, _ := w.ext.(*poolExt)
+		var items []Value
+		if pe != nil {
+			items = append(items, pe.items...)
+		}
+		w.ext = &poolExt{items: append(items, a[1])}
+		return nil
 	}
 	intrinsics["(*bytes.Buffer).Len"] = func(ex *Exec, st *State, fr *Frame, c *ssa.Call, a []Value) Value {
 		be, _ := st.obj(a[0].(*Ptr).obj).ext.(*bufExt)
@@ -832,6 +910,10 @@ func (r *readerExt) cloneExt() Ext { n := *r; return &n }
 type bufExt struct{ cells []*Term }
 
 func (b *bufExt) cloneExt() Ext { return &bufExt{cells: append([]*Term(nil), b.cells...)} }
+
+type poolExt struct{ items []Value }
+
+func (p *poolExt) cloneExt() Ext { return &poolExt{items: append([]Value(nil), p.items...)} }
 
 type bigExt struct{ val *Term }
 
